@@ -20,7 +20,7 @@ PROPS = {
             'that handles can still be dropped after the panic (drop glue / unwinding is outside both verifiers)',
         ]),
     'C14': dict(
-        units=['expert', 'nodepred', 'edges', 'steps'], level='proof',
+        units=['expert', 'nodepred', 'edges', 'steps', 'cutoffs'], level='proof',
         replays=['c14_invalid_dep_removed.rs', 'c14_callback_on_new_dependency.rs', 'c14_callback_on_valueless_child.rs'],
         uncovered=[
             'state_add_parent, remove_parent, check_if_unnecessary as reached from the expert paths are opaque callees with call-site obligations (receiver, index, order); their own bodies are under contract in units heightwalk / edges / nodepred',
